@@ -197,6 +197,21 @@ ROUND3 = {
  "C19": " Round 3: the per-apply ordering rule is now a life-cycle typestate (constructor; apply; apply; ...): whenever apply() transports the grid the kick in effect was computed from the queue front, and the entry recorded is the one transported - independent of whether the kick is computed at the start of apply() or prepared at the end of the previous one.",
  "C20": " Round 3: (R7) no getter and no first use in main pushes an option value through a value-changing conversion (floating->integral, narrower or differently signed integer, double->float in a getter).",
 }
+ROUND4 = {
+ "C01": " Round 4: the value stored in a destination cell is the weighted sum itself (R7: no clip, floor or absolute value between sum and store - column sums conserve charge only for a linear map); the weight function keeps no state between calls (R8).",
+ "C02": " Round 4: the weight function and the table builders keep no state between calls (R7: a memo keyed on part of the arguments hands out the weights of another order).",
+ "C04": " Round 4: the moment formulas of C09 (R2) are re-evaluated: bunch length and spread are second moments normalised by the bunch's own charge.",
+ "C05": " Round 4: the single-angle rules of C03 (R2, R6) are re-evaluated.",
+ "C06": " Round 4: std::transform into the padded buffer is modelled: the train receives the profiles themselves, not transformed values.",
+ "C07": " Round 4: the intensity rule judges three shapes (accumulated in place after a per-bunch reset, per-bunch local, SUM normal form) and reports an accumulator that is not reset per bunch.",
+ "C09": " Round 4: R3 judges deviating forms of normalize (multiplication not guarded by filling_set[n] > 0, missing zeroing of empty buckets) instead of stopping.",
+ "C10": " Round 4: (R8) the stored CSR intensity of bunch n is the sum of the stored spectrum of bunch n (re-evaluates C07 R1).",
+ "C14": " Round 4: every place after the loop that can print 'Aborted.' is selected by the abort flag itself (an interrupt during the last step leaves the step counter at its end).",
+ "C15": " Round 4: (R6) charge and particle share the zero of the displacement (centre rules of C01 R2 re-evaluated: odd grid sizes).",
+ "C17": " Round 4: (R7) every index handed to q()/p()/at() in appendTracks has an upper bound <= n-1 under the invariant that tracked coordinates lie in [0, n-1].",
+ "C18": " Round 4: the footprint rules quantify over every operation of the class (each non-construction member that writes a work buffer or runs a plan is discovered), not only over the three that exist today; R2 covers sums built in locals.",
+ "C20": " Round 4: (R8) no numeric option has a character value type (boost would take the first character of the argument); this rule found a genuine defect (ForceOpenGLVersion), repaired in /repo.",
+}
 RD_TEXT = (" Dimensional consistency (rule RD, engine E7): a units-of-measure inference over the whole program (dimension variables per storage location, "
            "linear constraints from every arithmetic expression, solved over the rationals; units taken from the options' help texts, the physcons constants "
            "and the unit names used as keys) shows that the quantities this property depends on have the dimensions their use demands, for every parameter set; "
@@ -208,6 +223,9 @@ ROUND3["C10"] += (" For C10 this covers the 30 unit attributes of the results fi
                   "from the wake scaling, consistent with the stored Volt/Watt factors (the 'absolute strength' clause, dimensionally).")
 for _p, _t in ROUND3.items():
     CLAIMED[_p]["text"] = CLAIMED[_p]["text"].rstrip() + _t
+for _p, _t in ROUND4.items():
+    CLAIMED[_p]["text"] = CLAIMED[_p]["text"].rstrip() + _t
+CLAIMED["C13"]["note"] = CLAIMED["C13"]["note"].replace("two recorded as known findings (ForceOpenGLVersion type, run_anyway skipped)", "ForceOpenGLVersion repaired later (93250ff), run_anyway skipped is a known finding")
 CLAIMED["C19"]["technique"] = "call-argument role agreement (resolved constructors), symbolic folding of the modulation expressions, life-cycle typestate (may-dataflow over the CFGs of constructors and apply) and exactly-once counts on the CFG"
 CLAIMED["C09"]["technique"] = CLAIMED["C09"]["technique"] + "; freshness typestate on main's CFG for the projection->moment dependence"
 CLAIMED["C15"]["technique"] = CLAIMED["C15"]["technique"] + "; effect analysis of apply() after the transport against the read set of applyTo"
